@@ -207,13 +207,16 @@ CHECKS["C18"] = dict(
           "stereographic pair is mutually inverse away from the pole; the Beltrami coefficient of z -> a z + b conj z (|b| < |a|) "
           "followed by ANY isometric embedding is b/a on every non-degenerate triangle (discrete derivative operators exact on affine "
           "functions); linear_beltrami_solver reproduces every landmark exactly for every solver meeting its contract; "
-          "spherical_conformal_map raises ValueError iff Euler characteristic <> 2 and its final step returns unit vectors and inverts "
-          "the south-pole projection (not its mirror image). Correspondence: stereographic pair, Beltrami coefficients and the final "
-          "step are compared with the model; the answers returned by linear_beltrami_solver (SuperLU oracle) are verified inside Coq "
-          "against the model's system, also for the calls recorded inside spherical_conformal_map. Unit norm, positive volume for "
-          "outward inputs, similarity invariance, reproduction of piecewise-affine maps, Moebius correction (norm, cross-ratios, "
-          "objective) are decided by oracles on the implementation; the north-pole stage is not modelled (partial)."),
-    design="6/C18", technique="Coq proof over R (field identities, solver-oracle contract) + vm_compute correspondence and in-Coq certificate")
+          "spherical_conformal_map raises ValueError iff Euler characteristic <> 2; in its north-pole stage the big triangle is laid "
+          "out at (0,0), (1,0), (|a.b|, |a x b|)/|a|^2 and every solver meeting its contract reproduces these positions; its final step "
+          "returns unit vectors and inverts the south-pole projection (not its mirror image); mobius_area_correction_spherical returns, "
+          "for whatever parameters the optimiser finds, unit vectors and keeps the cross-ratio of any four points (complex field "
+          "identity, Coquelicot). Correspondence: the whole map is followed through the model -- the recorded answer of the first "
+          "solve is verified against the model's north-pole system, the rescaling / projection to the south plane and the choice of "
+          "landmarks are recomputed, Beltrami coefficients, the second solve (certificate), the final step and the Moebius image are "
+          "compared. Unit norm, positive volume for outward inputs, similarity invariance, reproduction of piecewise-affine maps and "
+          "the Moebius objective are decided by oracles on the implementation (partial: SuperLU and scipy.optimize are oracles)."),
+    design="6/C18", technique="Coq proof over R and C (field identities, solver-oracle contract) + vm_compute correspondence and in-Coq certificates")
 
 NOT_YET = {}
 
